@@ -139,6 +139,8 @@ var globPool = []string{
 	".github/workflows/*.yml", ".github/workflows/**/*.yaml", "**/*.yml", "*.yml", ".github/**", "**",
 	"a.yml", "sub/*.yaml", "workflows/*.yml", "**/a.yml", "repo/**", "sub/**", "../**", "**/sub/**/*.yml",
 	".github/workflows/{a,b}.yml", "deep/d.yml", "workflows/**", "*", ".github/workflows/sub/c.yaml", "c.yaml",
+	// not lexically clean: a root-relative path never has these shapes, so they match no file
+	"./.github/workflows/*.yml", ".github/workflows/./a.yml", ".github//workflows/*.yml", ".github/workflows/sub/../a.yml", "./**",
 }
 
 // ---- layout ---------------------------------------------------------------
@@ -157,6 +159,8 @@ func mkLayout() *layout {
 		hx.Must(os.MkdirAll(filepath.Join(l.root, d), 0o755))
 	}
 	hx.Must(os.MkdirAll(filepath.Join(base, "other", "x"), 0o755))
+	// a directory beside the repository whose path is a string prefix of the repository's
+	hx.Must(os.MkdirAll(filepath.Join(base, "w", "rep"), 0o755))
 	// the same repository reached through a symbolic link that lives outside of it
 	hx.Must(os.Symlink(l.root, filepath.Join(base, "lnk")))
 	for rel, c := range wfContent {
@@ -179,7 +183,7 @@ func must(err error) {
 	}
 }
 
-var cwdKinds = []string{"root", "parent", "nested", "nested-workflows", "nested-sub", "unrelated", "grandparent"}
+var cwdKinds = []string{"root", "parent", "nested", "nested-workflows", "nested-sub", "unrelated", "grandparent", "prefix-sibling"}
 
 func (l *layout) cwd(kind string) string {
 	switch kind {
@@ -189,6 +193,8 @@ func (l *layout) cwd(kind string) string {
 		return filepath.Dir(l.root)
 	case "grandparent":
 		return l.base
+	case "prefix-sibling":
+		return filepath.Join(l.base, "w", "rep")
 	case "nested":
 		return filepath.Join(l.root, "nested", "dir")
 	case "nested-workflows":
@@ -218,6 +224,7 @@ type spec struct {
 	Extra    []string     `json:"extra_flags"`
 	RawArgs  []string     `json:"raw_args,omitempty"`   // mode != 0: arguments verbatim
 	RawCfg   string       `json:"raw_config,omitempty"` // mode != 0: the repository's configuration file verbatim
+	CfgKind  string       `json:"config_kind,omitempty"` // "dir": the configuration path is a directory; "loop": a symbolic link to itself
 }
 
 type diagT struct {
@@ -304,7 +311,11 @@ func (l *layout) run(s *spec) (stdout string, status int) {
 	for _, n := range []string{"actionlint.yaml", "actionlint.yml"} {
 		os.Remove(filepath.Join(l.root, ".github", n))
 	}
-	if s.RawCfg != "" {
+	if s.CfgKind == "dir" {
+		must(os.Mkdir(filepath.Join(l.root, ".github", "actionlint.yaml"), 0o755))
+	} else if s.CfgKind == "loop" {
+		must(os.Symlink("actionlint.yml", filepath.Join(l.root, ".github", "actionlint.yml")))
+	} else if s.RawCfg != "" {
 		must(os.WriteFile(filepath.Join(l.root, ".github", "actionlint.yaml"), []byte(s.RawCfg), 0o644))
 	} else if s.CfgName != "" {
 		must(os.WriteFile(filepath.Join(l.root, ".github", s.CfgName), []byte(s.configText()), 0o644))
@@ -706,6 +717,38 @@ func modeSpecs() []*spec {
 			out = append(out, s)
 		}
 	}
+	// a configuration file that exists but cannot be read is a fatal error as well
+	for _, kind := range []string{"dir", "loop"} {
+		for _, files := range [][]string{{".github/workflows/a.yml"}, {".github/workflows/a.yml", ".github/workflows/b.yml"}} {
+			s := mk(3, "root", append([]string{"-shellcheck=", "-pyflakes="}, files...)...)
+			s.CfgKind = kind
+			out = append(out, s)
+		}
+	}
+	return out
+}
+
+// dedicatedSpecs: completed lint runs of situations the random stream reaches rarely
+func dedicatedSpecs() []*spec {
+	var out []*spec
+	all := []string{".*"}
+	// `paths` keys that are not lexically clean apply to no file; beside a clean key that applies
+	for _, f := range wfFiles {
+		for _, g := range []string{"./.github/workflows/*.yml", "./**", ".github//workflows/*.yml", ".github/workflows/./" + filepath.Base(f), ".github/workflows/sub/../" + filepath.Base(f)} {
+			out = append(out, &spec{CwdKind: "root", Spelling: "relative", Files: []string{f}, CfgName: "actionlint.yaml", Paths: []pathsEntry{{Glob: g, Ignore: all}}})
+			out = append(out, &spec{CwdKind: "parent", Spelling: "absolute", Files: []string{f}, CfgName: "actionlint.yml",
+				Paths: []pathsEntry{{Glob: g, Ignore: []string{"no such message"}}, {Glob: f, Ignore: all}}})
+			out = append(out, &spec{CwdKind: "nested", Spelling: "dot", Files: []string{f}, CfgName: "actionlint.yaml",
+				Paths: []pathsEntry{{Glob: f, Ignore: all}, {Glob: g, Ignore: []string{"no such message"}}}})
+		}
+	}
+	// the working directory is a sibling whose path is a string prefix of the repository's
+	for _, sp := range []string{"absolute", "noisy-abs", "link-abs", "relative", "dot", "stdin-abs"} {
+		for _, f := range wfFiles {
+			out = append(out, &spec{CwdKind: "prefix-sibling", Spelling: sp, Files: []string{f}, CfgName: "actionlint.yaml", Paths: []pathsEntry{{Glob: f, Ignore: all}}})
+			out = append(out, &spec{CwdKind: "prefix-sibling", Spelling: sp, Files: []string{f}, CfgName: "actionlint.yml", Paths: []pathsEntry{{Glob: "**", Ignore: []string{"label"}}}})
+		}
+	}
 	return out
 }
 
@@ -793,7 +836,7 @@ func main() {
 	must(err)
 	defer specsOut.Close()
 
-	specs := modeSpecs()
+	specs := append(modeSpecs(), dedicatedSpecs()...)
 	for i := 0; i < *n; i++ {
 		specs = append(specs, genSpec(r))
 	}
